@@ -20,6 +20,27 @@ type c12Case struct {
 	Doc     []byte `json:"doc"`
 	Op      string `json:"op"` // text noiter json yaml toml dryrun walk mkdir-dry mkdir-real verify
 	Massive bool   `json:"massive,omitempty"`
+	// option values ("every option combination"): they are passed to every entry point, whether it uses them or not
+	Exts    []string      `json:"exts,omitempty"`
+	HasExts bool          `json:"hasExts,omitempty"`
+	Branch  *model.Branch `json:"branch,omitempty"`
+	Strict  bool          `json:"strict,omitempty"`
+	SingleP bool          `json:"singleP,omitempty"` // run in a worker process started with GOMAXPROCS=1
+}
+
+// extension values an implementation might feed to a pattern matcher, a formatter or a path function
+var c12HostileExts = []string{".c++", "*.go", "(", "[", "[a", "a)", "\\", ".go$", "^", "{2,1}", "?", "+", "\xff", "", "\x00", "%s", ".*", "**", "|", "(?P<", strings.Repeat("x", 5000), "/", "..", "\n"}
+
+func genC12Opts(t *rapid.T, c *c12Case) {
+	if rapid.IntRange(0, 2).Draw(t, "withExts") == 0 {
+		c.HasExts = true
+		c.Exts = rapid.SliceOfN(rapid.OneOf(sampled(c12HostileExts), sampled(extPool)), 0, 4).Draw(t, "exts")
+	}
+	if rapid.IntRange(0, 3).Draw(t, "withBranch") == 0 {
+		c.Branch = genBranch().Draw(t, "branch")
+	}
+	c.Strict = rapid.IntRange(0, 3).Draw(t, "strict") == 0
+	c.SingleP = rapid.IntRange(0, 7).Draw(t, "singleP") == 0
 }
 
 var c12Ops = []string{"text", "noiter", "json", "yaml", "toml", "dryrun", "walk", "mkdir-dry", "mkdir-real", "verify"}
@@ -30,6 +51,7 @@ func c12Make(c c12Case, op string, massive bool, doc []byte) ops.Case {
 	cs := ops.NewCase("output", "md")
 	cs.Doc = doc
 	cs.Opts.Massive = massive
+	cs.Opts.Exts, cs.Opts.HasExts, cs.Opts.Branch, cs.Opts.Strict = c.Exts, c.HasExts, c.Branch, c.Strict
 	switch op {
 	case "noiter":
 		cs.Opts.NoIter = true
@@ -54,12 +76,15 @@ func c12Make(c c12Case, op string, massive bool, doc []byte) ops.Case {
 	return cs
 }
 
-func c12Exec(cs *ops.Case, inproc bool) *ops.Result {
+func c12Exec(cs *ops.Case, inproc bool, singleP bool) *ops.Result {
 	if inproc {
 		return ops.DefaultEnv.Run(cs)
 	}
 	if cs.Op == "mkdir" {
 		return pool("chroot").Run(cs)
+	}
+	if singleP {
+		return pool("single").Run(cs)
 	}
 	return pool("plain").Run(cs)
 }
@@ -68,7 +93,7 @@ func c12Check(c c12Case) string { return c12CheckIn(c, false) }
 
 func c12CheckIn(c c12Case, inproc bool) string {
 	cs := c12Make(c, c.Op, c.Massive, c.Doc)
-	res := c12Exec(&cs, inproc)
+	res := c12Exec(&cs, inproc, c.SingleP)
 	head := fmt.Sprintf("op=%s massive=%v input=%q\n", c.Op, c.Massive, truncate(string(c.Doc), 300))
 	if res.Infra != "" {
 		return ""
@@ -97,7 +122,7 @@ func c12CheckIn(c c12Case, inproc bool) string {
 	switch c.Op {
 	case "text":
 		o := c12Make(c, "noiter", false, c.Doc)
-		r2 := c12Exec(&o, inproc)
+		r2 := c12Exec(&o, inproc, false)
 		if r2.Crashed() != "" {
 			return head + "noiter path: " + r2.Crashed()
 		}
@@ -106,14 +131,14 @@ func c12CheckIn(c c12Case, inproc bool) string {
 		}
 		if len(c.Doc) > 0 && c.Doc[len(c.Doc)-1] != '\n' && c.Doc[len(c.Doc)-1] != '\r' {
 			o := c12Make(c, "text", false, append(append([]byte{}, c.Doc...), '\n'))
-			r3 := c12Exec(&o, inproc)
+			r3 := c12Exec(&o, inproc, false)
 			if r3.Infra == "" && r3.Crashed() == "" && (res.Err.Nil != r3.Err.Nil || string(res.Out) != string(r3.Out)) {
 				return fmt.Sprintf("%sappending the missing final newline changes the result: %q/%q vs %q/%q", head, errOrNil(res), res.Out, errOrNil(r3), r3.Out)
 			}
 		}
 	case "walk":
 		o := c12Make(c, "noiter", false, c.Doc)
-		r2 := c12Exec(&o, inproc)
+		r2 := c12Exec(&o, inproc, false)
 		if r2.Infra == "" && r2.Crashed() == "" && res.Err.Nil && r2.Err.Nil {
 			var rows strings.Builder
 			for _, v := range res.Visits {
@@ -126,8 +151,10 @@ func c12CheckIn(c c12Case, inproc bool) string {
 	case "json":
 		if res.Err.Nil {
 			f, err := decodeJSONLines(res.Out)
-			o := c12Make(c, "noiter", false, c.Doc)
-			r2 := c12Exec(&o, inproc)
+			plain := c
+			plain.Branch = nil // (a branch string may contain line breaks; the lines of the default rendering are counted)
+			o := c12Make(plain, "noiter", false, c.Doc)
+			r2 := c12Exec(&o, inproc, false)
 			if r2.Infra == "" && r2.Crashed() == "" && r2.Err.Nil && validUTF8Lines(c.Doc) {
 				if err != nil {
 					return fmt.Sprintf("%sJSON output does not decode: %v", head, err)
@@ -281,7 +308,9 @@ func c12Gen() *rapid.Generator[c12Case] {
 		f := genForest(forestParams{maxNodes: 12, maxDepth: 7, names: names}).Draw(t, "forest")
 		doc := []byte(model.Spell(f, genSpelling(f.HeadingOK()).Draw(t, "sp")))
 		doc, _ = c12Mutate(t, doc)
-		return c12Case{Doc: doc, Op: rapid.SampledFrom(c12Ops).Draw(t, "op"), Massive: rapid.Bool().Draw(t, "massive")}
+		c := c12Case{Doc: doc, Op: rapid.SampledFrom(c12Ops).Draw(t, "op"), Massive: rapid.Bool().Draw(t, "massive")}
+		genC12Opts(t, &c)
+		return c
 	})
 }
 
@@ -308,19 +337,29 @@ func c12Record(col *collector, c c12Case, kinds []string) {
 	if len(bytes.TrimSpace(c.Doc)) == 0 {
 		cl = append(cl, "blank-input")
 	}
-	col.eval(len(kinds) > 0 || len(c.Doc) >= 1024, hash64(string(c.Doc), c.Op, fmt.Sprint(c.Massive)), cl...)
+	if c.HasExts {
+		cl = append(cl, "with-extension-list")
+	}
+	if c.Branch != nil {
+		cl = append(cl, "custom-branch")
+	}
+	if c.SingleP {
+		cl = append(cl, "process-with-one-P")
+	}
+	col.eval(len(kinds) > 0 || len(c.Doc) >= 1024, hash64(string(c.Doc), c.Op, fmt.Sprint(c.Massive, c.Exts, c.HasExts, c.Branch, c.Strict, c.SingleP)), cl...)
 	col.sample(func() any { return map[string]any{"doc": truncate(string(c.Doc), 200), "op": c.Op, "massive": c.Massive} })
 }
 
 func TestC12Mutation(t *testing.T) {
 	col := coll("C12", "mutation")
-	col.Rule = "rapid: a well-formed spelling of a random forest (names incl. hostile path elements, invalid UTF-8) with 0..4 grammar-aware mutations (delete/duplicate/swap lines, truncate, insert NUL/0xFF/CR/FF/Unicode spaces/bullets, lines of 65535/65536/200000 bytes, only blanks, only bullets, '#' runs, indented first line, tab/space mixes, byte replace/delete) x every entry point incl. real Mkdir in a chroot x {simple, massive}; executed in isolated worker processes with a hang watchdog; non-trivial = a mutation was applied or the input is >=1 kB"
+	col.Rule = "rapid: a well-formed spelling of a random forest (names incl. hostile path elements, invalid UTF-8) with 0..4 grammar-aware mutations (delete/duplicate/swap lines, truncate, insert NUL/0xFF/CR/FF/Unicode spaces/bullets, lines of 65535/65536/200000 bytes, only blanks, only bullets, '#' runs, indented first line, tab/space mixes, byte replace/delete) x every entry point incl. real Mkdir in a chroot x {simple, massive} x option values (1/3 with an extension list drawn from regexp/format/path metacharacters, invalid UTF-8, very long values; 1/4 with arbitrary branch strings; strict verify; 1/8 in a worker process started with GOMAXPROCS=1); executed in isolated worker processes with a hang watchdog; non-trivial = a mutation was applied or the input is >=1 kB"
 	rapid.Check(t, func(rt *rapid.T) {
 		names := genNameMix(poolTiny, poolSyntax, poolUnicode, poolInvalidUTF8, poolPathy, poolHostilePathItems(), nil)
 		f := genForest(forestParams{maxNodes: 12, maxDepth: 7, names: names}).Draw(rt, "forest")
 		doc := []byte(model.Spell(f, genSpelling(f.HeadingOK()).Draw(rt, "sp")))
 		doc, kinds := c12Mutate(rt, doc)
 		c := c12Case{Doc: doc, Op: rapid.SampledFrom(c12Ops).Draw(rt, "op"), Massive: rapid.Bool().Draw(rt, "massive")}
+		genC12Opts(rt, &c)
 		if k := c12Excluded(c); k != "" {
 			col.excluded(k)
 			return
@@ -349,11 +388,21 @@ var c12Constants = []string{"", "\n", " ", "\t", "\r\n", "   \n\t\n", "-", "- ",
 
 func TestC12Constants(t *testing.T) {
 	col := coll("C12", "constants")
-	col.Rule = fmt.Sprintf("%d fixed hostile inputs x every entry point x {simple, massive}", len(c12Constants))
+	col.Rule = fmt.Sprintf("%d fixed hostile inputs x every entry point x {simple, massive}, rotating through hostile extension-list values (regexp/format/path metacharacters, invalid UTF-8, 5000 bytes), hostile branch strings and a worker process started with GOMAXPROCS=1", len(c12Constants))
+	n := 0
 	for _, d := range c12Constants {
 		for _, op := range c12Ops {
 			for _, massive := range []bool{false, true} {
-				c := c12Case{Doc: []byte(d), Op: op, Massive: massive}
+				n++
+				c := c12Case{Doc: []byte(d), Op: op, Massive: massive, SingleP: n%4 == 0}
+				if n%3 == 0 {
+					// rotate through the hostile extension values, two at a time
+					c.HasExts = true
+					c.Exts = []string{c12HostileExts[n/3%len(c12HostileExts)], c12HostileExts[(n/3+7)%len(c12HostileExts)]}
+				}
+				if n%5 == 0 {
+					c.Branch = &model.Branch{MidD: "%s", MidI: "", LastD: "\n", LastI: "\xff"}
+				}
 				c12Record(col, c, []string{"constant"})
 				if msg := c12Check(c); msg != "" {
 					violation(t, "C12", "c12", c, msg)
